@@ -9,6 +9,7 @@ import (
 	"math/rand"
 	"runtime"
 	"sort"
+	"strings"
 	"sync"
 	"time"
 
@@ -17,8 +18,22 @@ import (
 
 func init() { register("C20", runC20) }
 
-var c20Topics = []string{"a/b", "a/c", "a", "x/y", "a/b/c", "é/b", ""}
-var c20Filters = []string{"a/#", "a/+", "#", "x/y", "+/b", "a/b", "+/+", "a", "a/b/#", "é/+"}
+// Serve is a public API: any Go string is a legal topic, valid UTF-8 or not. Contents are compared as
+// BYTE strings everywhere (Go side: ==, never after a rune round trip; Coq side: lists of bytes).
+var c20Topics = []string{"a/b", "a/c", "a", "x/y", "a/b/c", "é/b",
+	"\xff/b",                  // a byte that never occurs in UTF-8
+	"a/\x80",                  // lone continuation byte
+	"a/\xe6\x97",              // truncated 3-byte sequence
+	"\xed\xa0\x80/b",          // encoded surrogate
+	"a/\xc0\x80",              // overlong NUL
+	"a\x00b/c",                // embedded NUL
+	"\xf4\x90\x80\x80/\xfe\xff", // beyond U+10FFFF, BOM-like bytes
+	"a/" + c20Long,            // very long
+	""}
+var c20Long = strings.Repeat("long-level-\xe6\x97\xa5-\xff-", 12)
+var c20VeryLong = strings.Repeat("very-long-level-\xe6\x97\xa5-\xff-\x00-", 100)
+var c20Filters = []string{"a/#", "a/+", "#", "x/y", "+/b", "a/b", "+/+", "a", "a/b/#", "é/+",
+	"\xff/+", "a/\x80", "+/\xe6\x97", "\xed\xa0\x80/#", "a\x00b/+", "a/\xc0\x80"}
 
 func c20RandContent(r *rand.Rand) c20Content {
 	c := c20Content{Topic: c20Topics[r.Intn(len(c20Topics)-1)], ID: uint16(r.Intn(65536)), QoS: byte(r.Intn(3)),
@@ -27,9 +42,17 @@ func c20RandContent(r *rand.Rand) c20Content {
 	if r.Intn(8) == 0 {
 		n = 0
 	}
+	if r.Intn(40) == 0 {
+		n = 40 + r.Intn(30) // long (a really long one is in the scripted scenario: every write makes a new content to transmit)
+	}
 	c.Payload = make([]byte, n)
 	for i := range c.Payload {
 		c.Payload[i] = byte(1 + r.Intn(255))
+	}
+	if n > 0 && r.Intn(4) == 0 {
+		// invalid UTF-8 and NUL in the payload as well
+		bad := [][]byte{{0xff}, {0x80}, {0xe6, 0x97}, {0xed, 0xa0, 0x80}, {0xc0, 0x80}, {0}}[r.Intn(6)]
+		copy(c.Payload, bad)
 	}
 	return c
 }
@@ -404,6 +427,28 @@ func init() {
 // scenarios with user types built on ServeMux / ServeAsync registered among ordinary handlers.
 // Policy: every handler scribbles over what it received once; a wrapper edits topic, payload and
 // flags and then calls the Serve of what it embeds; then it returns and the loop goes on.
+func init() {
+	c20Scripts = append(c20Scripts, struct {
+		name string
+		regs [][]c20Reg
+		run  func(x *c20Exec)
+	}{"topics and payloads that are not UTF-8 (0xff, lone continuation, truncated sequence, encoded surrogate, overlong, NUL), very long and empty, through ServeMux, a nested ServeMux with the same filter bytes, and ServeAsync",
+		[][]c20Reg{{{"#", 0}, {"\xff/+", 1}, {"+/\x80", 2}, {"\xed\xa0\x80/#", 3}}, {{"\xff/+", 4}, {"+/\x80", 5}, {"#", 6}}},
+		func(x *c20Exec) {
+			x.doNew(c20Content{Topic: "\xff/\x80", ID: 1, QoS: 1, Retain: true, Payload: append([]byte{0xff, 0xc0, 0x80, 0, 0xed, 0xa0, 0x80}, []byte(c20VeryLong[:1500])...)}, 1, false)
+			for i, t := range []string{"\xff/\x80", "\xed\xa0\x80/a\x00b", "a/" + c20VeryLong, "", "\xff/\xe6\x97"} {
+				a0 := c20Agt(x, 0)
+				x.doBurst(a0, []*c20Item{{kind: "mut", op: &c20Op{Kind: "topic", S: t}}, {kind: "async", hid: 100 + i}, {kind: "mux", mi: 0}})
+				fr := c20Frm(x, len(x.frames)-1)
+				// the first handler entered forwards its copy into the second mux (same filter bytes)
+				if fr.cur != nil {
+					x.doBurst(fr.cur, []*c20Item{{kind: "mux", mi: 1}})
+				}
+				x.drain(func(n int) int { return 0 })
+			}
+		}})
+}
+
 var c20WrapScripts = []struct {
 	name  string
 	regs  [][]c20Reg
